@@ -202,6 +202,13 @@ def check(prop, tier, seed, no_build=False):
             elif status == 'ok':
                 cov['guards_regenerated'] = 'identical to the last generated file'
             rc, out = C.lake_build(modules + ['nvmodel'])
+            for _retry in range(2):
+                # a failure that names no Lean source position is an infrastructure hiccup (e.g. another lake
+                # process touching the build directory): retry; a real proof failure always names file:line:col
+                if rc == 0 or re.search(r'\.lean:\d+:\d+', out):
+                    break
+                time.sleep(3)
+                rc, out = C.lake_build(modules + ['nvmodel'])
             if rc != 0:
                 proof_ok = False
                 errs = [l for l in out.splitlines() if 'error' in l][:12]
@@ -266,10 +273,25 @@ def check(prop, tier, seed, no_build=False):
             for extra in cfg.get('extra', []):
                 violations += extra(prop, tier, rng, result)
     finally:
-        shutil.rmtree(work, ignore_errors=True)
+        pass
+    nvdrive_copy = C.NVDRIVE
 
     # classify against the known findings
     known = C.load_known()
+    # the witness of every open finding of this property is replayed on the implementation: while it still
+    # violates the property as stated, the finding is reported as known (never as a new violation)
+    if os.path.exists(nvdrive_copy):
+        C.NVDRIVE = nvdrive_copy
+        for k in known.get('open', []):
+            w = k.get('witness')
+            if k.get('property') != prop or not w:
+                continue
+            text = 'engine %s\ncase 0\n' % w['engine'] + '\n'.join(w['script']) + '\n'
+            rcw, outw, errw = C.run_script(C.NVDRIVE, text, 120, env=C.GOENV)
+            got = outw[w['line'] + 2] if len(outw) > w['line'] + 2 else '<no output>'
+            cov.setdefault('known_finding_witnesses', []).append({'id': k['id'], 'observed': got[:200], 'property_allows': w['property_allows'][:200]})
+            if not C.line_match(got, w['property_allows']):
+                known_lines.append('KNOWN-FINDING: property=%s %s' % (prop, k['what']))
     reported = []
     for v in violations:
         kf = match_known(prop, v, known)
@@ -278,6 +300,7 @@ def check(prop, tier, seed, no_build=False):
         else:
             reported.append(v)
 
+    shutil.rmtree(work, ignore_errors=True)
     broken = (not proof_ok) or bool(result['tie_errors'])
     rc = 0
     for l in sorted(set(known_lines)):
